@@ -201,37 +201,49 @@ def execBody (xs : List ExtBehaviour) (req : RequestOutcomeClass) : Trace × Lis
     (r.1, r.2.1, !r.2.2)
   | _ => ([], [], true)
 
-/-- the outcome class of the `*Result` handed to the execution-finish functions -/
-def bodyOut (xs : List ExtBehaviour) (req : RequestOutcomeClass) : Out :=
-  if (execBody xs req).2.1.isEmpty then .ok else .err
+/-- what `ExecutePlan`'s `select` hands back, as a triple: the executor goroutine's log so far, `Result.Errors`,
+whether `Result.Data` is set. For a live context this is `execBody`; for a context that is done it is
+`ctxBody` below. -/
+abbrev Body := Trace × List ErrClass × Bool
 
-/-- `ExecutePlan` (plan.go:647-740): execution start; on a hook error the started extensions' finish functions
-get the error result and `ExecutePlan` returns (no result collection); otherwise the goroutine body and the
-deferred execution-finish + `addExtensionResults`. -/
-def executePlan (xs : List ExtBehaviour) (req : RequestOutcomeClass) : Trace × ResultSummary :=
+/-- the outcome class of the `*Result` handed to the execution-finish functions -/
+def bodyOutB (body : Body) : Out := if body.2.1.isEmpty then .ok else .err
+
+def bodyOut (xs : List ExtBehaviour) (req : RequestOutcomeClass) : Out := bodyOutB (execBody xs req)
+
+/-- `ExecutePlan` (plan.go:677-766): execution start; on a hook error the started extensions' finish functions
+get the error result and `ExecutePlan` returns (no result collection); otherwise the executor goroutine is
+started, the `select` yields `body`, and the deferred execution-finish + `addExtensionResults` run — whatever the
+state of the request context. -/
+def executePlanB (xs : List ExtBehaviour) (body : Body) : Trace × ResultSummary :=
   let es := didStart .execStart 0 xs
   if !es.errs.isEmpty then
     let ef := finish .execEnd 0 .err es.fs
     (es.evs ++ ef.1, ⟨es.errs ++ ef.2, [], false⟩)
   else
-    let body := execBody xs req
-    let ef := finish .execEnd 0 (bodyOut xs req) es.fs
+    let ef := finish .execEnd 0 (bodyOutB body) es.fs
     let rs := addExtensionResults xs
     (es.evs ++ body.1 ++ ef.1 ++ rs.1, ⟨body.2.1 ++ ef.2 ++ rs.2.1, rs.2.2, body.2.2⟩)
 
+def executePlan (xs : List ExtBehaviour) (req : RequestOutcomeClass) : Trace × ResultSummary :=
+  executePlanB xs (execBody xs req)
+
 /-- `Execute` (executor.go:33-39): `PlanQuery` fails before any execution hook runs -/
-def execute (xs : List ExtBehaviour) (req : RequestOutcomeClass) : Trace × ResultSummary :=
+def executeB (xs : List ExtBehaviour) (req : RequestOutcomeClass) (body : Body) : Trace × ResultSummary :=
   match req with
   | .operationErr => ([], ⟨[.request], [], false⟩)
-  | _ => executePlan xs req
+  | _ => executePlanB xs body
+
+def execute (xs : List ExtBehaviour) (req : RequestOutcomeClass) : Trace × ResultSummary :=
+  executeB xs req (execBody xs req)
 
 /-- prefix the log of an earlier step -/
 def pre (t : Trace) (r : Trace × ResultSummary) : Trace × ResultSummary := (t ++ r.1, r.2)
 
 def early (errs : List ErrClass) : Trace × ResultSummary := ([], ⟨errs, [], false⟩)
 
-/-- `graphql.Do` (graphql.go:36-120) -/
-def run (xs : List ExtBehaviour) (req : RequestOutcomeClass) : Trace × ResultSummary :=
+/-- `graphql.Do` (graphql.go:36-120); `body` = what the `select` of `ExecutePlan` yields, if it gets that far -/
+def runB (xs : List ExtBehaviour) (req : RequestOutcomeClass) (body : Body) : Trace × ResultSummary :=
   let i := handleInits xs
   pre i.1 <|
   if !i.2.isEmpty then early i.2 else                       -- graphql.go:43-48
@@ -263,7 +275,48 @@ def run (xs : List ExtBehaviour) (req : RequestOutcomeClass) : Trace × ResultSu
   let vf := finish .valEnd 0 .ok vs.fs
   pre vf.1 <|
   if !vf.2.isEmpty then early vf.2 else                     -- graphql.go:105-110
-  execute xs req
+  executeB xs req body
+
+/-- a request whose context stays live -/
+def run (xs : List ExtBehaviour) (req : RequestOutcomeClass) : Trace × ResultSummary :=
+  runB xs req (execBody xs req)
+
+/-! ### Requests whose context is done (cancelled / past its deadline) before `ExecutePlan`'s `select` yields
+
+`Do` itself never looks at the context: init, parse, validation and execution-start hooks run as usual. In
+`ExecutePlan` the `select` then returns the context error instead of the executor's result; the deferred
+execution-finish functions get that error result and the extension results are collected. The executor goroutine
+is NOT stopped: it goes on calling resolvers and resolve hooks after `Do` has returned (its result, including the
+errors of resolve hooks that panic there, is discarded). The log therefore has two parts: what is logged when `Do`
+returns (`runCtx`), and what the abandoned executor logs afterwards (`ctxLate`). -/
+
+/-- where the executor goroutine stands when the context is found done: it has not logged anything yet (context
+done before the call), or it is inside the resolver of the executed field number `j` -/
+inductive CtxAt | before | inResolver (j : Nat)
+  deriving DecidableEq, Repr
+
+/-- split the executor's log after the call of the resolver of field `j` -/
+def splitAfterResolver (j : Nat) : Trace → Trace × Trace
+  | [] => ([], [])
+  | e :: t =>
+    if e.hook == .resolver && e.fld == j then ([e], t)
+    else ((e :: (splitAfterResolver j t).1), (splitAfterResolver j t).2)
+
+def ctxSplit (xs : List ExtBehaviour) (fields : List FieldOutcome) : CtxAt → Trace × Trace
+  | .before => ([], (executeFields xs 0 fields).1)
+  | .inResolver j => splitAfterResolver j (executeFields xs 0 fields).1
+
+/-- what the `select` yields when the context is done: the context error, no data -/
+def ctxBody (xs : List ExtBehaviour) (fields : List FieldOutcome) (at_ : CtxAt) : Body :=
+  ((ctxSplit xs fields at_).1, [.request], false)
+
+/-- `graphql.Do` on executed fields `fields` with a context that is done at `at_`: log when `Do` returns, result -/
+def runCtx (xs : List ExtBehaviour) (fields : List FieldOutcome) (at_ : CtxAt) : Trace × ResultSummary :=
+  runB xs (.exec fields) (ctxBody xs fields at_)
+
+/-- `ExecutePlan` called directly with such a context -/
+def executePlanCtx (xs : List ExtBehaviour) (fields : List FieldOutcome) (at_ : CtxAt) : Trace × ResultSummary :=
+  executePlanB xs (ctxBody xs fields at_)
 
 /-! ## S — what the property demands of a log
 
@@ -423,6 +476,46 @@ instance (req ns t) : Decidable (Balanced req ns t) := by unfold Balanced; infer
 instance (ns t) : Decidable (Nested ns t) := by unfold Nested; infer_instance
 instance (req ns t r) : Decidable (PanicsReported req ns t r) := by unfold PanicsReported; infer_instance
 
+/-! ### Requests whose context is done
+
+The caller's goroutine and the abandoned executor goroutine log concurrently, so the property is stated for the
+two parts of the log separately: the top-level phases (everything but resolve hooks and resolver calls) as logged
+when `Do` returns, and the resolve phases in the complete log (after the executor has drained). -/
+
+def isResolveHook : Hook → Bool
+  | .resStart | .resEnd | .resolver => true
+  | _ => false
+
+def topLevel (t : Trace) : Trace := t.filter (fun e => !isResolveHook e.hook)
+def resolveOnly (t : Trace) : Trace := t.filter (fun e => isResolveHook e.hook)
+
+/-- for the caller's goroutine a request whose context is done looks like a request that fails at execution with
+one request-level error and no data (as a variable-coercion error does): execution is started, finished with
+an error outcome, results are collected -/
+def ctxReq : RequestOutcomeClass := .variableErr
+
+/-- the resolve phases extension `a` sees in the executor's log: each announced immediately before its resolver
+call, finished exactly once with the field's outcome, not overlapping -/
+def resolvePhasesFor (req : RequestOutcomeClass) (a : Nat) (t : Trace) : Bool :=
+  (proj a (resolveOnly t)).foldl (balStep (expectedOut req t)) (some [.exec]) == some [.exec]
+  && (proj a (resolveOnly t)).foldl nestStep .exec == .exec
+  && (proj a (resolveOnly t)).foldl poStep (.saw .execStart 0) != .bad
+
+/-- ordered, balanced, nested for a request whose context is done: `now` = log when `Do` returns, `late` = what
+the executor logs afterwards -/
+def CtxBalancedOrderedNested (fields : List FieldOutcome) (ns : List Nat) (now late : Trace) : Prop :=
+  PhaseOrder ns (topLevel now) ∧ Balanced ctxReq ns (topLevel now) ∧ Nested ns (topLevel now)
+  ∧ ∀ a ∈ ns, resolvePhasesFor (.exec fields) a (now ++ late) = true
+
+/-- panics of the hooks called on the caller's goroutine are reported and isolated (the errors of resolve hooks
+that panic in the abandoned executor are lost with its result: observation O-17f in the notes) -/
+def CtxPanicsReported (ns : List Nat) (now : Trace) (r : ResultSummary) : Prop :=
+  PanicsReported ctxReq ns (topLevel now) r
+
+instance (fields ns now late) : Decidable (CtxBalancedOrderedNested fields ns now late) := by
+  unfold CtxBalancedOrderedNested; infer_instance
+
+
 /-! ## How far a run gets (used by the proofs), and the one remaining deviation -/
 
 def anyFault (xs : List ExtBehaviour) (h : Hook) : Bool := xs.any (fun b => b.beh h != .ok)
@@ -436,6 +529,14 @@ def reachesExec (xs : List ExtBehaviour) (req : RequestOutcomeClass) : Bool :=
   && req != .operationErr
 def reachesBody (xs : List ExtBehaviour) (req : RequestOutcomeClass) : Bool :=
   reachesExec xs req && !anyFault xs .execStart
+
+/-- what the abandoned executor goroutine logs after `Do` has returned (extensions with distinct names) -/
+def ctxLate (xs : List ExtBehaviour) (fields : List FieldOutcome) (at_ : CtxAt) : Trace :=
+  if reachesBody xs (.exec fields) then (ctxSplit xs fields at_).2 else []
+
+/-- the same for `ExecutePlan` called directly -/
+def ctxLatePlan (xs : List ExtBehaviour) (fields : List FieldOutcome) (at_ : CtxAt) : Trace :=
+  if anyFault xs .execStart then [] else (ctxSplit xs fields at_).2
 
 /-- two registered extensions share a name (the finish-function map keeps one entry per name) -/
 def sharedName : List Nat → Bool
